@@ -32,6 +32,10 @@ pub(crate) unsafe fn stub_alloc_slack(layout: std::alloc::Layout) -> *mut u8 {
     }
 }
 pub(crate) unsafe fn stub_dealloc_leak(_ptr: *mut u8, _layout: std::alloc::Layout) {}
+pub(crate) unsafe fn stub_dealloc_nn_leak(_ptr: ::core::ptr::NonNull<u8>, _layout: std::alloc::Layout) {}
+pub(crate) unsafe fn stub_realloc_nn_slack(ptr: ::core::ptr::NonNull<u8>, layout: std::alloc::Layout, new_size: usize) -> *mut u8 {
+    unsafe { stub_realloc_slack(ptr.as_ptr(), layout, new_size) }
+}
 pub(crate) unsafe fn stub_realloc_slack(ptr: *mut u8, layout: std::alloc::Layout, new_size: usize) -> *mut u8 {
     unsafe {
         let new = std::alloc::alloc_zeroed(std::alloc::Layout::from_size_align_unchecked(new_size + 64, layout.align()));
@@ -80,13 +84,13 @@ fn inv(p: &Parameters, asleep: &[bool; 2]) -> bool {
 /// original_destination_connection_id = odcid_decl).
 fn peer_client(decl: u8) -> ClientParameters {
     let mut c = ClientParameters::new();
-    assert!(c.set(ParameterId::InitialSourceConnectionId, cid1(decl)).is_ok());
+    ::core::mem::forget(c.set(ParameterId::InitialSourceConnectionId, cid1(decl)));
     c
 }
 fn peer_server(decl: u8, odcid_decl: u8) -> ServerParameters {
     let mut s = ServerParameters::new();
-    assert!(s.set(ParameterId::InitialSourceConnectionId, cid1(decl)).is_ok());
-    assert!(s.set(ParameterId::OriginalDestinationConnectionId, cid1(odcid_decl)).is_ok());
+    ::core::mem::forget(s.set(ParameterId::InitialSourceConnectionId, cid1(decl)));
+    ::core::mem::forget(s.set(ParameterId::OriginalDestinationConnectionId, cid1(odcid_decl)));
     s
 }
 
@@ -117,7 +121,7 @@ fn any_pre(as_client: bool, c: &Cids, params_in: bool, scid_in: bool) -> Pre {
     let initial_scid = if scid_in { Some(cid1(c.wire)) } else { None };
     let p = if as_client {
         let mut local = ClientParameters::new();
-        assert!(local.set(ParameterId::InitialSourceConnectionId, cid1(0)).is_ok());
+        ::core::mem::forget(local.set(ParameterId::InitialSourceConnectionId, cid1(0)));
         Parameters {
             state: if ready { Parameters::CLIENT_READY | Parameters::SERVER_READY } else { Parameters::CLIENT_READY },
             client: Arc::new(local),
@@ -128,7 +132,7 @@ fn any_pre(as_client: bool, c: &Cids, params_in: bool, scid_in: bool) -> Pre {
         }
     } else {
         let mut local = ServerParameters::new();
-        assert!(local.set(ParameterId::InitialSourceConnectionId, cid1(0)).is_ok());
+        ::core::mem::forget(local.set(ParameterId::InitialSourceConnectionId, cid1(0)));
         Parameters {
             state: if ready { Parameters::CLIENT_READY | Parameters::SERVER_READY } else { Parameters::SERVER_READY },
             client: if params_in { Arc::new(peer_client(c.decl)) } else { Arc::default() },
@@ -152,6 +156,8 @@ fn any_cids() -> Cids {
 #[kani::stub(std::alloc::alloc, stub_alloc_slack)]
 #[kani::stub(std::alloc::dealloc, stub_dealloc_leak)]
 #[kani::stub(std::alloc::realloc, stub_realloc_slack)]
+#[kani::stub(alloc::alloc::dealloc_nonnull, stub_dealloc_nn_leak)]
+#[kani::stub(alloc::alloc::realloc_nonnull, stub_realloc_nn_slack)]
 #[kani::unwind(5)]
 fn c16_params_step_poll() {
     let c = any_cids();
@@ -232,6 +238,8 @@ fn step_event<const AS_CLIENT: bool, const PARAMS: bool>() {
 #[kani::stub(std::alloc::alloc, stub_alloc_slack)]
 #[kani::stub(std::alloc::dealloc, stub_dealloc_leak)]
 #[kani::stub(std::alloc::realloc, stub_realloc_slack)]
+#[kani::stub(alloc::alloc::dealloc_nonnull, stub_dealloc_nn_leak)]
+#[kani::stub(alloc::alloc::realloc_nonnull, stub_realloc_nn_slack)]
 #[kani::unwind(5)]
 fn c16_params_step_recv_params_client() {
     step_event::<true, true>();
@@ -241,6 +249,8 @@ fn c16_params_step_recv_params_client() {
 #[kani::stub(std::alloc::alloc, stub_alloc_slack)]
 #[kani::stub(std::alloc::dealloc, stub_dealloc_leak)]
 #[kani::stub(std::alloc::realloc, stub_realloc_slack)]
+#[kani::stub(alloc::alloc::dealloc_nonnull, stub_dealloc_nn_leak)]
+#[kani::stub(alloc::alloc::realloc_nonnull, stub_realloc_nn_slack)]
 #[kani::unwind(5)]
 fn c16_params_step_recv_params_server() {
     step_event::<false, true>();
@@ -250,6 +260,8 @@ fn c16_params_step_recv_params_server() {
 #[kani::stub(std::alloc::alloc, stub_alloc_slack)]
 #[kani::stub(std::alloc::dealloc, stub_dealloc_leak)]
 #[kani::stub(std::alloc::realloc, stub_realloc_slack)]
+#[kani::stub(alloc::alloc::dealloc_nonnull, stub_dealloc_nn_leak)]
+#[kani::stub(alloc::alloc::realloc_nonnull, stub_realloc_nn_slack)]
 #[kani::unwind(5)]
 fn c16_params_step_scid_client() {
     step_event::<true, false>();
@@ -259,6 +271,8 @@ fn c16_params_step_scid_client() {
 #[kani::stub(std::alloc::alloc, stub_alloc_slack)]
 #[kani::stub(std::alloc::dealloc, stub_dealloc_leak)]
 #[kani::stub(std::alloc::realloc, stub_realloc_slack)]
+#[kani::stub(alloc::alloc::dealloc_nonnull, stub_dealloc_nn_leak)]
+#[kani::stub(alloc::alloc::realloc_nonnull, stub_realloc_nn_slack)]
 #[kani::unwind(5)]
 fn c16_params_step_scid_server() {
     step_event::<false, false>();
@@ -270,6 +284,8 @@ fn c16_params_step_scid_server() {
 #[kani::stub(std::alloc::alloc, stub_alloc_slack)]
 #[kani::stub(std::alloc::dealloc, stub_dealloc_leak)]
 #[kani::stub(std::alloc::realloc, stub_realloc_slack)]
+#[kani::stub(alloc::alloc::dealloc_nonnull, stub_dealloc_nn_leak)]
+#[kani::stub(alloc::alloc::realloc_nonnull, stub_realloc_nn_slack)]
 #[kani::unwind(5)]
 fn c16_params_step_fail() {
     let c = any_cids();
